@@ -41,20 +41,30 @@ for d in sorted(glob.glob(os.path.join(SRC, "*"))):
         rows.append((name, meta.get("property"), meta.get("summary", ""), "NOT KEPT: our confirmation failed: " + json.dumps(conf), "", ""))
         continue
     os.makedirs(dst, exist_ok=True)
+    rebased = any("rebased" in (h if isinstance(h, str) else json.dumps(h)) for h in (old.get("history") or []) if h) if isinstance(old.get("history"), list) else "rebased" in str(old.get("history") or "")
     for f in os.listdir(d):
         if f not in ("meta.json", "confirm.json"):
+            if f == "patch.diff" and rebased and os.path.exists(os.path.join(dst, f)):
+                continue  # the patch in seeded/ was rebased onto a later /repo HEAD
             shutil.copy(os.path.join(d, f), os.path.join(dst, f))
     v = verdicts.get(name) or old.get("check_verdict")
     meta["confirmed_here"] = conf
     meta["what_i_ran"] = ["tools/confirm_mutant.sh /tmp/rt-out/%s  (demo on clean HEAD, git apply, go build with and without -tags verif, demo again, go test of the touched packages)" % name,
                           "tools/try_mutant.sh /tmp/rt-out/%s %s  (bin/check %s quick against a scratch worktree with the patch applied)" % (name, meta.get("property"), meta.get("property"))]
     if v: meta["check_verdict"] = v
-    if old.get("history") and not meta.get("history"): meta["history"] = old["history"]
     if isinstance(meta.get("history"), str): meta["history"] = [meta["history"]]
+    oh = old.get("history") or []
+    if isinstance(oh, str): oh = [oh]
+    meta["history"] = list(meta.get("history") or [])
+    for h in oh:
+        if h not in meta["history"]: meta["history"].append(h)
+    if old.get("retired") and not meta.get("retired"): meta["retired"] = old["retired"]
     json.dump(meta, open(os.path.join(dst, "meta.json"), "w"), indent=1)
     caught = "not run yet"
     if v:
         caught = ("caught, failing input (%s oracle failures)" % v.get("oracle_failures")) if v.get("failing_input") else ("caught, no-failing-input-found" if v.get("violation") else "MISSED (exit %s)" % v.get("exit"))
+    if meta.get("retired"):
+        caught = "RETIRED: " + meta["retired"]
     rows.append((name, meta.get("property"), meta.get("summary", ""), meta.get("needs", ""), caught, "; ".join(h if isinstance(h, str) else json.dumps(h) for h in meta.get("history", []))))
 with open(os.path.join(ROOT, "seeded", "README.md"), "w") as f:
     f.write("# Seeded breaking changes\n\nWritten by engineers who saw only the property text; confirmed and run here (see DESIGN.md §9).\n`history` records changes that were missed at first and what was strengthened.\n\n| change | property | what was changed | needs to manifest | `bin/check <ID> quick` on it | history |\n|---|---|---|---|---|---|\n")
